@@ -43,7 +43,9 @@ def flag_required(flag, width, names, carry_in):
 
 
 def run(ctx, chk):
-    chk.explanation = EXPL
+    chk.explanation = EXPL + (" R8 sibling cross-check: the byte and the word helper of one mnemonic must build every flag from the same expression tree "
+                              "(modulo width constants and casts); a tree that is the other one with one operand left out is reported, other differences of "
+                              "formulation are listed as undecided.")
     chk.assumptions += [
         "distinct abstract addresses within one action do not alias",
         "std callees behave as their models (wrapping_add, Into::into, Clone)",
@@ -59,6 +61,8 @@ def run(ctx, chk):
     r_dep = chk.rule("C01.R4", "result and flags depend on every architecturally required input", floor=100)
     r_wb = chk.rule("C01.R6", "CMP writes no destination; other productions write only their destination", floor=30)
     r_ab = chk.rule("C01.R7", "no abort site in the arithmetic helpers / actions can fail", floor=10)
+    chk.rule("C01.R8", "byte and word helper of a mnemonic compute every flag from the same expression (no dropped operand)", floor=25)
+    sibling_rule(ctx, chk)
 
     tabs = {}
     for nt in ("byte_binary_arithmetic", "word_binary_arithmetic", "byte_unary_arithmetic", "word_unary_arithmetic"):
@@ -225,3 +229,33 @@ def run(ctx, chk):
 
 
 from absint import Unsupported  # noqa: E402
+
+
+def sibling_rule(ctx, chk):
+    """C01.R8 (see siblings.py): width-parametric copies must agree; a dropped operand is a definite slip."""
+    import siblings as S
+    P = ctx.program
+    for m, d in sorted(S.sibling_pairs(P).items()):
+        a, b = S.flag_trees(d["byte"]), S.flag_trees(d["word"])
+        if not a and not b:
+            continue
+        where_b, where_w = fn_where(d["byte"]), fn_where(d["word"])
+        for f in sorted(set(a) | set(b)):
+            ta, tb = a.get(f), b.get(f)
+            unit = f"{m}:{f}"
+            if ta is None or tb is None:
+                chk.undecided_("C01.R8", unit, "flag set by only one of the two helpers through set_all_flags")
+                continue
+            if ta == tb:
+                chk.ok("C01.R8", unit, S.show(ta)[:120])
+                continue
+            dw = S.dropped_operand(ta, tb)  # word lacks something byte has
+            db = S.dropped_operand(tb, ta)
+            if dw or db:
+                opn, what = dw or db
+                who, other, where = ("word", "byte", where_w) if dw else ("byte", "word", where_b)
+                chk.violation("C01.R8", f"{m}.{who[0]}", f"{f}-drops-operand:{what}",
+                              f"{who}_{m}: the expression for `{f}` is the {other} form with the operand `{what}` of a {opn} left out "
+                              f"({other}: {S.show(ta if dw else tb)[:160]}; {who}: {S.show(tb if dw else ta)[:160]}): the two widths compute this flag differently", where)
+            else:
+                chk.undecided_("C01.R8", unit, f"different formulations: byte {S.show(ta)[:100]} / word {S.show(tb)[:100]}")
